@@ -73,7 +73,7 @@ func mwBases(P *core.Program) []*mwBase {
 	}
 	// keep only types actually handed to NewSimpleMiddleware
 	used := map[string]bool{}
-	nsm := P.Root.Func("NewSimpleMiddleware")
+	nsm := P.Func(P.Root, "NewSimpleMiddleware")
 	for _, fn := range P.ModFuncs {
 		for _, call := range callsTo(fn, nsm) {
 			used[typeNameOf(an.Unwrap(call.Call.Args[0]).Type())] = true
@@ -509,7 +509,7 @@ var boundTable = []boundRow{
 // baseOfCtor: the SimpleMiddlewareBase implementer instantiated by an
 // exported constructor.
 func baseOfCtor(P *core.Program, bases []*mwBase, ctor string) *mwBase {
-	fn := P.Root.Func(ctor)
+	fn := P.Func(P.Root, ctor)
 	if fn == nil {
 		return nil
 	}
@@ -747,7 +747,7 @@ var nip11Table = []struct{ field, ctor string }{
 
 func runNip11Tab(c *core.Ctx) {
 	P := c.P
-	build := P.Root.Func("BuildMiddlewareFromNIP11")
+	build := P.Func(P.Root, "BuildMiddlewareFromNIP11")
 	if build == nil {
 		c.NoAnchor(nil, "BuildMiddlewareFromNIP11")
 		return
@@ -808,7 +808,7 @@ func runNip11Tab(c *core.Ctx) {
 
 func runNip11Nil(c *core.Ctx) {
 	P := c.P
-	build := P.Root.Func("BuildMiddlewareFromNIP11")
+	build := P.Func(P.Root, "BuildMiddlewareFromNIP11")
 	if build == nil {
 		c.NoAnchor(nil, "BuildMiddlewareFromNIP11")
 		return
